@@ -405,14 +405,32 @@ Definition handle_tftp (fuel : nat) (c : conn) : hres :=
   | _ => mkH Returned (b_c b1) res0
   end.
 
+(* io.ReadFull(b, buf), len buf = want (io.ReadAtLeast): Read until [want] bytes are there or
+   an error comes; a Read that returns (0, nil) changes nothing and the loop goes on *)
+Fixpoint read_full (fuel : nat) (want got : nat) (b : brd) : option (nat * rerr * brd) :=
+  if (want <=? got)%nat then Some (got, ENone, b)
+  else match fuel with
+       | O => None
+       | S f =>
+           let '(d, e, b') := bread b (want - got) in
+           match e with
+           | ENone => read_full f want (got + length d) b'
+           | _ => Some ((got + length d)%nat, e, b')
+           end
+       end.
+
 (* services/memcached.go; [udp]: 8-byte header read first, every command costs a
-   limiter token (burst 4, no refill within a connection) *)
+   limiter token (burst 4, no refill within a connection).  Store commands read the
+   first min(count, 80) bytes of the data block with io.ReadFull and discard the rest
+   and the trailing CR LF. *)
 Definition MC_STATS_LEN : N := 1033.
 
 Definition is_store (w : bytes) : bool :=
   eqb_bytes w [97;100;100]%N || eqb_bytes w [114;101;112;108;97;99;101]%N ||
   eqb_bytes w [112;114;101;112;101;110;100]%N || eqb_bytes w [97;112;112;101;110;100]%N ||
   eqb_bytes w [99;97;115]%N || eqb_bytes w [115;101;116]%N.
+
+Definition is_enone (e : rerr) : bool := match e with ENone => true | _ => false end.
 
 Fixpoint mc_loop (fuel : nat) (udp : bool) (tokens : nat) (b : brd) : outcome * brd :=
   match fuel with
@@ -435,15 +453,17 @@ Fixpoint mc_loop (fuel : nat) (udp : bool) (tokens : nat) (b : brd) : outcome * 
                 else match atoi (nth 4 parts []) with
                      | None => (Returned, b1)
                      | Some v =>
-                         let '(d, e, b2) := bread b1 80 in
-                         match e with
-                         | ENone =>
-                             match discard (S f) (v - Z.of_nat (length d)) b2 with
-                             | None => (OutOfFuel, b2)
-                             | Some b3 => mc_loop f udp tokens' (bwrite b3 8)
-                             end
-                         | _ => (Returned, b2)
-                         end
+                         if v <? 0 then (Returned, b1)
+                         else
+                           match read_full (S f) (Z.to_nat (Z.min v 80)) 0 b1 with
+                           | None => (OutOfFuel, b1)
+                           | Some (n, e, b2) =>
+                               if negb (is_enone e) && (n =? 0)%nat && (0 <? v) then (Returned, b2)
+                               else match discard (S f) (v - Z.of_nat n + 2) b2 with
+                                    | None => (OutOfFuel, b2)
+                                    | Some b3 => mc_loop f udp tokens' (bwrite b3 8)
+                                    end
+                           end
                      end
               else mc_loop f udp tokens' (bwrite b1 7)
           end
